@@ -56,6 +56,7 @@ func runC02(c *Ctx) {
 		c02Execution(c, ro)
 		c02Routing(c, ro)
 		c02Critical(c, ro)
+		c02ExecutedWhenRequested(c, ro)
 	}
 	c.MinCount("gated/", 7, "gated validation results")
 	c.MinCount("pairing/", 5, "ValidationResult allocations")
@@ -1201,6 +1202,7 @@ func c02Plugin(c *Ctx, ro *c02Roles) {
 			} else {
 				c.OK("plugin/min-version-attr", rule, w.InstrPos(mv))
 			}
+			c02MinVersionWellFormed(c, mfi, mv, mvUnnamed, isSent)
 			// the same for the plugin name attribute itself (all paths)
 			nc := callOf(nameV)
 			nfi := fi
@@ -1397,6 +1399,7 @@ func c02Verdicts(c *Ctx, F *ssa.Function, execInF *ssa.Call) {
 	ti, _ := w.depConstString("github.com/notaryproject/notation-plugin-framework-go/plugin", "CapabilityTrustedIdentityVerifier")
 	rv, _ := w.depConstString("github.com/notaryproject/notation-plugin-framework-go/plugin", "CapabilityRevocationCheckVerifier")
 	for _, cap := range []struct{ name, val string }{{"trusted-identity", ti}, {"revocation", rv}} {
+		c02VerdictEveryPath(c, R, fi, capHeaders, cap.name, cap.val)
 		rule := "plugin verdict: under capability " + cap.val + " every path from a verdict with Success == false to the next iteration or to a success exit stores a non-nil Error into a validation result (which rule b then gates)"
 		// blocks that store a non-nil Error into a ValidationResult
 		cut := map[edgeKey]bool{}
@@ -1411,7 +1414,7 @@ func c02Verdicts(c *Ctx, F *ssa.Function, execInF *ssa.Call) {
 			}
 			for j := 0; j < 2; j++ {
 				l := condLabel(iff.Cond, j == 0)
-				if strings.HasPrefix(l, "F(") && strings.Contains(l, respD+".VerificationResults[") && strings.HasSuffix(l, ".Success)") {
+				if c02FailedVerdictEdge(l, iff.Cond, j == 0, respD) {
 					g := fi.GuardsOf(iff)
 					if _, h := hasLabel(g, "EQ(", fmt.Sprintf("const:%q)", cap.val)); h {
 						if cut[edgeKey{b.Index, j}] {
@@ -1433,7 +1436,7 @@ func c02Verdicts(c *Ctx, F *ssa.Function, execInF *ssa.Call) {
 			}
 			for j := 0; j < 2; j++ {
 				l := condLabel(iff.Cond, j == 0)
-				if strings.HasPrefix(l, "F(") && strings.Contains(l, respD+".VerificationResults[") && strings.HasSuffix(l, ".Success)") && cut[edgeKey{b.Index, j}] {
+				if c02FailedVerdictEdge(l, iff.Cond, j == 0, respD) && cut[edgeKey{b.Index, j}] {
 					if _, h := hasLabel(fi.GuardsOf(iff), "EQ(", fmt.Sprintf("const:%q)", cap.val)); h {
 						direct++
 					}
